@@ -219,7 +219,7 @@ CallRecordOf(h, o, f, arg, p, c, hi, v0, vp) ==
    args    |-> <<>>,
    sharers |-> Around(h, p.h, Objects(h) \ {o}),
    arrays  |-> ArraysAround(h, p.h),
-   plain   |-> [exc |-> "", st |-> vp, stw |-> vp, stv |-> vp, dq |-> 0],
+   plain   |-> [exc |-> "", st |-> vp, stw |-> vp, stv |-> vp, dq |-> 0, isrecv |-> p.res = o],
    inpl    |-> [exc |-> "", st |-> Val(hi, c.o), dq |-> 0, self |-> TRUE,
                 orig |-> [before |-> Obs(h, o), after |-> Obs(hi, o)],
                 arrays |-> ArraysAround(h, hi)],
@@ -240,7 +240,8 @@ BinaryRecordOf(h, q, p) ==
    args    |-> << [before |-> Obs(h, q[3]), after |-> Obs(p.h, q[3])] >>,
    sharers |-> Around(h, p.h, Objects(h) \ {q[2], q[3]}),
    arrays  |-> ArraysAround(h, p.h),
-   plain   |-> [exc |-> "", st |-> Val(p.h, p.res), stw |-> Val(p.h, p.res), stv |-> Val(p.h, p.res), dq |-> 0],
+   plain   |-> [exc |-> "", st |-> Val(p.h, p.res), stw |-> Val(p.h, p.res), stv |-> Val(p.h, p.res), dq |-> 0,
+                isrecv |-> p.res \in {q[2], q[3]}],
    inpl    |-> [exc |-> ""],
    perm    |-> [s \in Storages(h, q[2]) \cup Storages(h, q[3]) |->
                   Let(PermuteStorageH(h, s[1], s[2]), LAMBDA hp :
@@ -359,6 +360,7 @@ EmitJson == depth = MaxDepth => PrintT(<<"QVJSON", ToJson(hist)>>)
 
 (* ----------------------------- properties ------------------------------ *)
 PlainPureInv            == "PlainPure" \notin bad
+PlainReturnsNewObjectInv == "PlainReturnsNewObject" \notin bad
 SharersUntouchedInv     == "SharersUntouched" \notin bad
 ArraysUntouchedInv      == "ArraysUntouched" \notin bad
 PlainIsInplaceOnCopyInv == "PlainIsInplaceOnCopy" \notin bad
@@ -367,6 +369,6 @@ PermInvariantInv        == "PermInvariant" \notin bad
 ResultIsRefInv          == "ResultIsRef" \notin bad
 InplaceLocalInv         == "InplaceLocal" \notin bad
 QuietStepInv            == "QuietStep" \notin bad
-NothingElseInv          == bad \subseteq {"PlainPure", "SharersUntouched", "ArraysUntouched", "PlainIsInplaceOnCopy",
+NothingElseInv          == bad \subseteq {"PlainPure", "PlainReturnsNewObject", "SharersUntouched", "ArraysUntouched", "PlainIsInplaceOnCopy",
                                           "CopyIsolated", "PermInvariant", "ResultIsRef", "InplaceLocal", "QuietStep"}
 =============================================================================
